@@ -167,18 +167,21 @@ pub fn check_rewrite(lang: SupportLang, lname: &str, fname: &str, src: &str, yam
   let r = guarded(|| {
     let cfg = match load(yaml) {
       Ok(c) => c,
-      Err(_) => return (0, vec![], false),
+      Err(_) => return (0, vec![], false, 0),
     };
     let grep = lang.ast_grep(src);
     let root = grep.root();
-    let kind = spec["kind"].as_str().unwrap_or("");
-    let wrap = spec["wrap"].as_bool().unwrap_or(false);
-    let lit = spec["lit"].as_str().unwrap_or("");
+    // rewriters in the order of the `rewriters` list: (kind, wrap, literal)
+    let rws: Vec<(String, bool, String)> = match spec["rws"].as_array() {
+      Some(a) => a.iter().map(|x| (x["kind"].as_str().unwrap_or("").to_string(), x["wrap"].as_bool().unwrap_or(false), x["lit"].as_str().unwrap_or("").to_string())).collect(),
+      None => vec![(spec["kind"].as_str().unwrap_or("").to_string(), spec["wrap"].as_bool().unwrap_or(false), spec["lit"].as_str().unwrap_or("").to_string())],
+    };
     let join = spec["join"].as_str();
     let plain = spec["plain"].as_bool().unwrap_or(false);
     let mut sigs = vec![];
     let mut n = 0;
     let mut nt = false;
+    let mut nested = 0u64;
     for node in root.dfs() {
       let Some(nm) = cfg.matcher.match_node(node.clone()) else { continue };
       n += 1;
@@ -204,13 +207,19 @@ pub fn check_rewrite(lang: SupportLang, lname: &str, fname: &str, src: &str, yam
       }
       // reference: pre-order nodes of the captured nodes of kind `kind`, non-overlapping left to right
       let mut pieces: Vec<(usize, usize, String)> = vec![];
+      let mut nested_skipped = false;
       let mut at = s;
       for c in &caps {
         for d in c.dfs() {
-          if d.is_named() && d.kind() == kind && d.range().start >= at {
-            let t = if wrap { format!("<{}>", d.text()) } else { lit.to_string() };
+          // the first rewriter of the list that matches the node makes the edit; an edit that starts
+          // inside an earlier accepted one is dropped
+          let Some((_, wrap, lit)) = rws.iter().find(|(k, _, _)| d.is_named() && d.kind() == k.as_str()) else { continue };
+          if d.range().start >= at {
+            let t = if *wrap { format!("<{}>", d.text()) } else { lit.to_string() };
             pieces.push((d.range().start, d.range().end, t));
             at = d.range().end;
+          } else {
+            nested_skipped = true;
           }
         }
       }
@@ -231,14 +240,18 @@ pub fn check_rewrite(lang: SupportLang, lname: &str, fname: &str, src: &str, yam
       if !pieces.is_empty() {
         nt = true;
       }
+      if nested_skipped {
+        nested += 1;
+      }
       if got != want {
         sigs.push((format!("C06/rewrite/value{}", if join.is_some() { "/joinBy" } else { "" }), format!("rewrite of `{}` gives {:?}, the reference splice {:?}", clip(slice, 60), clip(&got, 80), clip(&want, 80))));
       }
     }
-    (n, sigs, nt)
+    (n, sigs, nt, nested)
   });
   match r {
-    Ok((n, sigs, nt)) => {
+    Ok((n, sigs, nt, nested)) => {
+      rep.count("rewrite_captures_with_nested_rewriter_matches", nested);
       for (sig, what) in sigs {
         rep.violation(&sig, &format!("{what} (rule {})", clip(yaml, 240)), replay.clone());
       }
@@ -336,34 +349,62 @@ pub fn run_source(lang: SupportLang, fname: &str, src: &str, n_cases: usize, rng
     rep.count("edits_expanded", n as u64);
     // --- rewriters over the captured variable
     if let Some(var) = vars.first() {
-      if !kinds.is_empty() {
-        let kind = rng.pick(&kinds).clone();
-        let wrap = rng.chance(1, 2);
-        let join = if rng.chance(1, 3) { Some("|") } else { None };
+      for _attempt in 0..2 {
+        if kinds.is_empty() {
+          break;
+        }
+        let join = if rng.chance(1, 2) { Some(*rng.pick(&["|", " + ", ""])) } else { None };
         let plain = rng.chance(3, 4);
         let src_var = if var.starts_with("$$$") { "$$$V".to_string() } else { "$V".to_string() };
         let pattern = cut.pattern.replacen(var.as_str(), &src_var, 1);
         // other variables keep their names; the first one is renamed to V
         if Pattern::try_new(&pattern, lang).is_err() {
-          continue;
+          break;
         }
-        let rw_rule = if wrap { json!({"kind": kind, "pattern": "$X"}) } else { json!({"kind": kind}) };
-        let rw_fix: Value = if plain {
-          json!(if wrap { "<$X>".to_string() } else { "LIT".to_string() })
-        } else {
-          json!({"template": if wrap { "<$X>" } else { "LIT" }, "expandEnd": {"regex": "^,$"}, "expandStart": {"regex": "^[(,]$", "stopBy": "end"}})
+        // one or two rewriters on different kinds, taken from what the variable stood for in the
+        // originating node (inner and outer nodes alike, so nested rewriter matches are frequent)
+        let ranges: Vec<std::ops::Range<usize>> = match (cut.singles.first(), &cut.multi) {
+          (Some((_, r)), _) => vec![r.clone()],
+          (None, Some((_, rs))) => rs.clone(),
+          _ => vec![],
         };
+        let mut cap_kinds: Vec<String> = root
+          .dfs()
+          .filter(|d| d.is_named() && ranges.iter().any(|r| r.start <= d.range().start && d.range().end <= r.end))
+          .map(|d| d.kind().to_string())
+          .collect();
+        cap_kinds.sort();
+        cap_kinds.dedup();
+        let pool: &Vec<String> = if cap_kinds.is_empty() || rng.chance(1, 5) { &kinds } else { &cap_kinds };
+        let mut ks: Vec<String> = vec![rng.pick(pool).clone()];
+        if rng.chance(1, 2) {
+          let k2 = rng.pick(pool).clone();
+          if k2 != ks[0] {
+            ks.push(k2);
+          }
+        }
+        let mut defs = vec![];
+        let mut rws = vec![];
+        for (i, kind) in ks.iter().enumerate() {
+          let wrap = rng.chance(1, 2);
+          let lit = format!("LIT{i}");
+          let rw_rule = if wrap { json!({"kind": kind, "pattern": "$X"}) } else { json!({"kind": kind}) };
+          let tmpl = if wrap { "<$X>".to_string() } else { lit.clone() };
+          let rw_fix: Value = if plain { json!(tmpl) } else { json!({"template": tmpl, "expandEnd": {"regex": "^,$"}, "expandStart": {"regex": "^[(,]$", "stopBy": "end"}}) };
+          defs.push(json!({"id": format!("rw{i}"), "rule": rw_rule, "fix": rw_fix}));
+          rws.push(json!({"kind": kind, "wrap": wrap, "lit": lit}));
+        }
         let mut rw = serde_json::Map::new();
         rw.insert("source".into(), json!(src_var));
-        rw.insert("rewriters".into(), json!(["rw"]));
+        rw.insert("rewriters".into(), json!((0..ks.len()).map(|i| format!("rw{i}")).collect::<Vec<_>>()));
         if let Some(j) = join {
           rw.insert("joinBy".into(), json!(j));
         }
         let y = yaml_of(json!({"id":"t","language":lname,"rule":{"pattern":pattern},
           "transform":{"NEW":{"rewrite":Value::Object(rw)}},
-          "rewriters":[{"id":"rw","rule":rw_rule,"fix":rw_fix}],
+          "rewriters":defs,
           "fix":"$NEW"}));
-        let spec = json!({"kind":kind,"wrap":wrap,"lit":"LIT","join":join,"plain":plain});
+        let spec = json!({"rws":rws,"join":join,"plain":plain});
         let n = check_rewrite(lang, &lname, fname, src, &y, &spec, rep);
         rep.count("rewrite_matches", n as u64);
       }
